@@ -28,7 +28,7 @@ Your task: make ONE realistic source change to the crate (under {wt}/src or {wt}
   (d) it looks like a plausible mistake a maintainer could make in a refactoring or "optimisation" (an off-by-one, a dropped condition, a wrong order of two operations, a missed case), a few lines at most; do not add comments pointing at the bug.
 
 {hint}
-Then write a demonstration: a small integration test or program (for example a new file under {wt}/tests/ using the crate's public API, or a tiny binary crate under {out}/demo depending on the crate by path) that FAILS with your change and PASSES on the unmodified code. Verify both directions yourself (use `git stash` / `git stash pop` or `git diff > patch; git checkout -- src` to flip).
+Then write a demonstration: a small integration test or program (for example a new file under {wt}/tests/ using the crate's public API, or a tiny binary crate under {out}/demo depending on the crate by path) that FAILS with your change and PASSES on the unmodified code. Verify both directions yourself. To flip between the two states use `git diff -- src codegen/src > /tmp/seed_out/.../my.patch; git checkout -- src codegen/src; ...; git apply my.patch` - do NOT use `git stash`: the stash is shared between all worktrees of the repository and other people work in sibling worktrees.
 
 Deliver, in {out}/:
   - patch.diff : `git -C {wt} diff -- src codegen/src` (source change only, NOT the demo)
